@@ -86,7 +86,7 @@ def model_join(rng):
     t = r.choice(['t1', 't2'])
     tbl = f'{HOME[t]}.{t}'
     second = None
-    frm = f'{tbl} AS t'
+    frm = f'{tbl} AS t' if r.random() < 0.9 else f'(SELECT * FROM {tbl} WHERE id > 0) AS t'
     if r.random() < 0.3:
         t2 = r.choice(['t2', 't3'])
         second = f'{HOME[t2]}.{t2}'
@@ -101,7 +101,9 @@ def model_join(rng):
             t3 = r.choice(['t2', 't3'])
             # ... joined on a column of the first table, or on a column of the model's output
             on3 = r.choice(['t.id = v.id', 't.id = v.id', 'm.k = v.id', 'v.id = m.k', 'm.k = v.id AND t.a = v.id'])
-            frm += f' {r.choice(["JOIN", "LEFT JOIN"])} {HOME[t3]}.{t3} AS v ON {on3}'
+            # ... a plain table, or a nested select over it
+            member = f'{HOME[t3]}.{t3}' if r.random() < 0.7 else f'(SELECT * FROM {HOME[t3]}.{t3} WHERE id > 0)'
+            frm += f' {r.choice(["JOIN", "LEFT JOIN"])} {member} AS v ON {on3}'
         else:
             frm += ' JOIN proj.m2 AS m9'
     elif r.random() < 0.12:
@@ -187,7 +189,7 @@ def ts_join(rng):
     if groups and r.random() < 0.5:
         conds.append(f"t.g = {r.choice([1, 2])}")
         pf = True
-    extra = r.choice([''] * 10 + ['order', 'group', 'offset', 'foreign'])
+    extra = r.choice([''] * 12 + ['order', 'group', 'offset', 'foreign', 'having', 'group-having', 'offset-comma', 'order-expr'])
     r.shuffle(conds)
     left = r.random() < 0.25
     tbl = 'int1.series AS t'
@@ -212,16 +214,22 @@ def ts_join(rng):
         else:
             where = ' AND '.join(conds)
         s += ' WHERE ' + where
-    if extra == 'group':
+    if extra in ('group', 'group-having'):
         s += ' GROUP BY t.g'
+    if extra in ('having', 'group-having'):
+        s += ' HAVING count(*) > 0'
     if extra == 'order':
         s += ' ORDER BY t.ts'
+    if extra == 'order-expr':
+        s += ' ORDER BY t.v + 1 DESC'
     lim = None
-    if r.random() < 0.4:
+    if r.random() < 0.4 or extra in ('offset', 'offset-comma'):
         lim = r.choice([1, 3, 10])
-        s += f' LIMIT {lim}'
+        s += f' LIMIT 1, {lim}' if extra == 'offset-comma' else f' LIMIT {lim}'
     if extra == 'offset':
         s += ' OFFSET 1'
+    # (info['extra'] names the clause kind only)
+    extra = {'group-having': 'group', 'offset-comma': 'offset', 'order-expr': 'order'}.get(extra, extra)
     return s, {'model': model, 'op': op, 'partition_filter': pf, 'extra': extra, 'limit': lim, 'model_left': left}
 
 
